@@ -30,10 +30,12 @@ def install(lib):
         E[f"marshmallow.fields.{ft}"] = field(ft)
 
     def v_range(I, a, k, fr, n):
-        return LibObj("mm_range", min=k.get("min"), max=k.get("max"), error=k.get("error"),
-                      call=lambda I2, a2, k2, fr2, n2, kk=k: _range_call(I2, kk, a2[0]))
+        bad = _template_exc(k.get("error"), ("input", "min", "max"))
+        return LibObj("mm_range", min=k.get("min"), max=k.get("max"), error=k.get("error"), bad_exc=bad,
+                      call=lambda I2, a2, k2, fr2, n2, kk=k: _range_call(I2, kk, a2[0], bad))
     E["marshmallow.validate.Range"] = v_range
-    E["marshmallow.validate.OneOf"] = lambda I, a, k, fr, n: LibObj("mm_oneof", choices=tuple(a[0]) if a else tuple(k["choices"]))
+    E["marshmallow.validate.OneOf"] = lambda I, a, k, fr, n: LibObj(
+        "mm_oneof", choices=tuple(a[0]) if a else tuple(k["choices"]), bad_exc=_template_exc(k.get("error"), ("input", "choices", "labels")))
 
     # ---- clock (A-CLOCK)
     def localtime(I, a, k, fr, n):
@@ -57,7 +59,29 @@ def install(lib):
     E["uuid.uuid4"] = uuid4
 
 
-def _range_call(I, k, v):
+def _template_exc(error, known):
+    """A validator's custom `error` template is formatted with str.format(**known) when the value is rejected (A-MM): a
+    placeholder outside `known` makes the rejection raise KeyError / IndexError instead of ValidationError."""
+    if error is None:
+        return None
+    if not isinstance(error, str):
+        raise Unsupported("validator error template that is not a literal string")
+    import string
+    try:
+        for _, fname, _, _ in string.Formatter().parse(error):
+            if fname is None:
+                continue
+            base = fname.split(".")[0].split("[")[0]
+            if base == "" or base.isdigit():
+                return "IndexError"
+            if base not in known:
+                return "KeyError"
+    except ValueError:
+        return "ValueError"
+    return None
+
+
+def _range_call(I, k, v, bad_exc=None):
     """validate.Range(min,max)(value): inclusive bounds, ValidationError otherwise (A-MM)."""
     i = I.intv(v)
     if i is None:
@@ -69,7 +93,7 @@ def _range_call(I, k, v):
         conds.append(i <= k["max"])
     ok = z3.And(*[I.as_bool(c) for c in conds]) if conds else True
     if not I.c.branch(ok if not isinstance(ok, bool) else ok, "range-ok"):
-        I.raise_("ValidationError")
+        I.raise_(bad_exc or "ValidationError")
     return v
 
 
@@ -183,6 +207,8 @@ first_line = z3.Function("first_line", BytesS, BytesS)  # shortest prefix of the
 after_line = z3.Function("after_line", BytesS, BytesS)  # the unread bytes after that prefix
 has_line = z3.Function("has_line", BytesS, BoolS)  # the unread bytes contain a terminator
 bcat = z3.Function("bcat", BytesS, BytesS, BytesS)  # concatenation of byte strings
+btake = z3.Function("btake", BytesS, IntS, BytesS)  # the first n unread bytes
+bdrop = z3.Function("bdrop", BytesS, IntS, BytesS)  # the unread bytes without their first n
 
 STREAM_GHOST = {"ghost.inb": BytesS, "ghost.outb": BytesS, "ghost.closed": BoolS}
 
@@ -208,13 +234,34 @@ def _streams_install(lib):
                     if o_ == 0:
                         raise RaiseSig(_exc(I3, "OSError", node))
                     if o_ == 1:
-                        raise RaiseSig(_exc(I3, "LimitOverrunError", node))
+                        consumed = c.fresh("overrun_consumed", IntS)
+                        c.assume(consumed >= 0)
+                        raise RaiseSig(_exc(I3, "LimitOverrunError", node, consumed=Sym(consumed, "int")))
                     if not c.branch(has_line(inb), "line-available"):
                         raise RaiseSig(_exc(I3, "IncompleteReadError", node, partial=Sym(inb, "bytes")))
                     c.heap.set("ghost.inb", after_line(inb))
                     return Sym(first_line(inb), "bytes")
                 return coro(run)
             return Builtin("StreamReader.readuntil", readuntil)
+        if name in ("readexactly", "read"):
+            def readn(I2, a, k):
+                def run(I3):
+                    c = I3.c
+                    n = I3.intv(a[0]) if a else None
+                    if n is None:
+                        raise Unsupported(f"StreamReader.{name} without an int count")
+                    n = z3.IntVal(n) if isinstance(n, int) else n
+                    inb = c.heap.get("ghost.inb", BytesS)
+                    if c.branch(c.fresh("io_error", BoolS), name):
+                        raise RaiseSig(_exc(I3, "OSError", node))
+                    if name == "readexactly" and c.branch(c.fresh("eof_before_n", BoolS), "readexactly-eof"):
+                        raise RaiseSig(_exc(I3, "IncompleteReadError", node, partial=Sym(inb, "bytes")))
+                    # A-STREAM: n bytes leave the stream, whether or not they end at a line boundary
+                    c.assume(z3.Implies(n == 0, bdrop(inb, n) == inb))
+                    c.heap.set("ghost.inb", bdrop(inb, n))
+                    return Sym(btake(inb, n), "bytes")
+                return coro(run)
+            return Builtin(f"StreamReader.{name}", readn)
         return MISSING
 
     def writer_attr(I, o, name, fr, node):
@@ -303,12 +350,24 @@ def _mqtt_install(lib):
         return I.c.heap.get(name, I.w.ghost_sorts[name])
 
     # ---- asyncio.Queue: FIFO log (qlen = number put, qhead = number taken, qat = the items)
-    lib.ext_calls["asyncio.Queue"] = lambda I, a, k, fr, n: I.alloc(TOpaque("Queue"))
+    def new_queue(I, a, k, fr, n):
+        mx = a[0] if a else k.get("maxsize", 0)
+        mi = I.intv(mx)
+        if mi is None:
+            raise Unsupported("asyncio.Queue(maxsize) that is not an int")
+        I.c.heap.set("ghost.qmax", z3.IntVal(mi) if isinstance(mi, int) else mi)  # maxsize <= 0: unbounded
+        return I.alloc(TOpaque("Queue"))
+    lib.ext_calls["asyncio.Queue"] = new_queue
+
+    def queue_full(I2):
+        return z3.And(g(I2, "ghost.qmax") > 0, g(I2, "ghost.qlen") - g(I2, "ghost.qhead") >= g(I2, "ghost.qmax"))
 
     def queue_attr(I, o, name, fr, node):
         if name == "put_nowait":
             def put(I2, a, k):
                 item = a[0]
+                if I2.c.branch(queue_full(I2), "queue-full"):
+                    I2.raise_("QueueFull")  # A-AIO: put_nowait on a bounded queue that holds maxsize items
                 ql = g(I2, "ghost.qlen")
                 I2.c.heap.set("ghost.qat", z3.Store(g(I2, "ghost.qat"), ql, item.ref))
                 I2.c.heap.set("ghost.qlen", ql + 1)
